@@ -107,6 +107,18 @@ func collectFuncs(sp *ssa.Package) map[string]*ssa.Function {
 		for _, a := range f.AnonFuncs {
 			add(a)
 		}
+		// bound-method wrappers created at closure sites (e.g. retryErr.Retry as a function value)
+		for _, b := range f.Blocks {
+			for _, ins := range b.Instrs {
+				if mc, ok := ins.(*ssa.MakeClosure); ok {
+					if g, ok := mc.Fn.(*ssa.Function); ok && g.Synthetic != "" {
+						if _, seen := out[synthName(g)]; !seen {
+							out[synthName(g)] = g
+						}
+					}
+				}
+			}
+		}
 	}
 	for _, m := range sp.Members {
 		switch m := m.(type) {
@@ -697,4 +709,22 @@ func checkClosers(pr *Program) []string {
 		}
 	}
 	return out
+}
+
+// synthName: name under which a synthetic wrapper (bound method closure) is registered.
+func synthName(g *ssa.Function) string {
+	s := g.String()
+	// e.g. (github.com/at-wat/mqtt-go.ErrorWithRetry).Retry$bound -> (ErrorWithRetry).Retry$bound
+	if i := strings.LastIndex(s, "/"); i >= 0 {
+		if j := strings.Index(s[i:], "."); j >= 0 {
+			pre := ""
+			if strings.HasPrefix(s, "(*") {
+				pre = "(*"
+			} else if strings.HasPrefix(s, "(") {
+				pre = "("
+			}
+			return pre + s[i+j+1:]
+		}
+	}
+	return s
 }
